@@ -4,6 +4,7 @@ use crate::amt::{self, Within};
 use crate::cases::c01::{dec_in_domain, ref_types};
 use crate::exact::Rat;
 use crate::gen::{gen_amount, Dom, Tape};
+use crate::hist;
 use crate::model::ctx;
 use crate::runner::*;
 use serde::{Deserialize, Serialize};
@@ -81,6 +82,14 @@ pub fn check(case: &Case) -> Verdict {
     }
     let sa_inv = sa.recip();
     let same_unit = case.ua == case.ub;
+    // ---- the results depend on the operands only
+    let h = hist::mix(&[hist::mix_str(&case.a), hist::mix_str(&case.b), case.ty as u64, case.ua as u64, case.ub as u64]);
+    if h % 4 == 0 {
+        let obs = || format!("+: {}, -: {}, /: {}", hist::show_q((t.add)(qa, qb)), hist::show_q((t.sub)(qa, qb)), catch(|| amt::key((t.div)(qa, qb))).unwrap_or_else(|_| "panic".into()));
+        if let Some(m) = hist::independent(h, &obs) {
+            fail!("{}: {}: {}", tname, case.note, m);
+        }
+    }
     // ---- sum and difference
     for (name, subtract) in [("+", false), ("-", true)] {
         let f = if subtract { t.sub } else { t.add };
